@@ -342,6 +342,18 @@ def run(prog, rep):
         if strip_casts(n["r"])["field"] == "right" and in_thread_block:
             okd, msgd = False, "line %d: the cursor moves right in the block that threads the predecessor (pairs would be visited in descending order or skipped)" % line(n)
     rep.ob("C12.5", fe, "direction", okd, "in-order: predecessor = rightmost node of the left subtree; visit, then move right; descend left only after threading" if okd else msgd, fe.loc[0])
+    if ok5 and counter is not None:
+        # the counter can hold as many pending thread links as the tree can have nodes on one left spine: it is as wide as nnodes
+        cdecl = [n for (b, i, n) in fe.nodes(elsewhere=True) if n["k"] == "decl" and n["name"] == counter]
+        trec = tu.records.get("PTree_")
+        nn = trec.field("nnodes") if trec is not None else None
+        cw = tu.types[cdecl[0]["t"]].get("w") if cdecl else None
+        nw_ = nn.get("bits") if nn else None
+        if cw is None or nw_ is None:
+            raise AnalysisBroken("p_tree_foreach: width of the thread counter or of nnodes not found")
+        if cw < nw_:
+            ok5, msg5 = False, ("line %d: the thread counter %s has %d bits, the node count %d: with more than %d thread links pending (an unbalanced tree's left spine) it wraps to zero, "
+                                "an early stop returns with links still installed and the tree keeps a cycle" % (line(cdecl[0]), counter, cw, nw_, (1 << (cw - 1)) - 1))
     rep.ob("C12.5", fe, "threads", ok5, "thread/unthread are counted on %s; early return only with the counter zero; no callback after a stop request" % counter if ok5 else msg5, fe.loc[0])
     rep.floor("C12.5", 2)
 
@@ -468,6 +480,8 @@ SELFTEST = [
          old="\t\t(*cur_node)->key   = key;\n\t\t(*cur_node)->value = value;\n\n\t\treturn FALSE;", new="\t\t(*cur_node)->key   = key;\n\t\t(*cur_node)->value = value;\n\n\t\treturn TRUE;"),
     dict(id="remove-missing-returns-true", file="src/ptree-bst.c", expect="C12.3",
          old="\tif (P_UNLIKELY (cur_node == NULL))\n\t\treturn FALSE;", new="\tif (P_UNLIKELY (cur_node == NULL))\n\t\treturn TRUE;"),
+    dict(id="foreach-thread-counter-8bit", file="src/ptree.c", expect="C12.5",
+         old="\tpint\t\tmod_counter;", new="\tpint8\t\tmod_counter;"),
     dict(id="foreach-early-return-no-counter", file="src/ptree.c", expect="C12.5",
          old="\t\t\t\tif (need_stop == TRUE && mod_counter == 0)\n\t\t\t\t\treturn;", new="\t\t\t\tif (need_stop == TRUE)\n\t\t\t\t\treturn;"),
     dict(id="foreach-callback-after-stop", file="src/ptree.c", expect="C12.5",
